@@ -35,7 +35,8 @@ HeadersOf(file) == LET h == FirstData(file) IN [j \in 1..Len(h) |-> CleanHeader(
 InitSt == [vars |-> <<>>, stopped |-> FALSE, skip |-> FALSE, advance |-> 0, valid |-> TRUE,
            matchCount |-> 0, curMatch |-> 0, scanCount |-> 0, printed |-> <<>>, frozen |-> FALSE,
            memo |-> <<>>, cur |-> 0, built |-> FALSE, onceDone |-> {},
-           line |-> <<>>, headers |-> <<>>, limit |-> <<>>, appended |-> {}, sig |-> NoSig]
+           line |-> <<>>, headers |-> <<>>, limit |-> <<>>, appended |-> {}, sig |-> NoSig,
+           errors |-> <<>>, errPrinted |-> 0, pending |-> 0, raised |-> FALSE]
 \* The Matcher is built (and the match part validated) the first time a line reaches matches();
 \* counter.name() initialises its variable to 0 at that point (Counter.check_valid).
 RECURSIVE SetIfNone(_, _)
@@ -54,7 +55,10 @@ Ctx(case, k) ==
    dataCount |-> LmCount(CountData(file, k)), endNum |-> N - 1,
    lastScan |-> IsLastScanLine(case.prog.scan, k, N),
    totalData |-> LmCount(CountData(file, N - 1)), AND |-> case.cfg.AND, comps |-> case.prog.comps,
-   meta |-> case.prog.meta]
+   meta |-> case.prog.meta,
+   \* the error policy of the configuration and the csvpath's validation-mode overrides (default: the scratch configuration)
+   policy |-> IF "policy" \in DOMAIN case.cfg THEN {case.cfg.policy[j] : j \in 1..Len(case.cfg.policy)} ELSE {"collect", "print"},
+   vm |-> IF "vm" \in DOMAIN case.cfg THEN case.cfg.vm ELSE <<>>]
 
 \* _consider_line: returns [st, ret] where ret is what next() uses to decide to yield
 Consider(case, st, k) ==
@@ -70,9 +74,10 @@ Consider(case, st, k) ==
         m == IF st1.advance > 0
                THEN [matched |-> FALSE, st |-> [st1 EXCEPT !.advance = st1.advance - 1]]
                ELSE MatchLine(Build(case, st1), ctx)
-        st2 == IF ctx.lastScan THEN [m.st EXCEPT !.stopped = TRUE] ELSE m.st
-        st3 == IF m.matched THEN RaiseMatch(st2) ELSE st2
-    IN [st |-> st3, ret |-> (m.matched # case.cfg.noMatches),
+        \* an error handed to the caller (policy 'raise') leaves _consider_line at once
+        st2 == IF ctx.lastScan /\ ~m.st.raised THEN [m.st EXCEPT !.stopped = TRUE] ELSE m.st
+        st3 == IF m.matched /\ ~m.st.raised THEN RaiseMatch(st2) ELSE st2
+    IN [st |-> st3, ret |-> (~m.st.raised /\ (m.matched # case.cfg.noMatches)),
         kind |-> IF st1.advance > 0 THEN "advance" ELSE "match"]
 
 \* one pass through the loop body of next(), including what collect() does with the result
@@ -85,7 +90,7 @@ Step(case, S) ==
       unmatched2 == IF ~ret2 /\ case.cfg.collecting /\ case.cfg.keepUnmatched
                       THEN Append(S.unmatched, S.k) ELSE S.unmatched
       early == case.cfg.nexts > 0 /\ Len(returned2) = case.cfg.nexts /\ ret2   \* collect(nexts=n) breaks
-      fin == c.st.stopped \/ S.k + 1 = Len(case.file)
+      fin == c.st.stopped \/ c.st.raised \/ S.k + 1 = Len(case.file)
       \* finalize() freezes the path unless the generator was abandoned by collect(nexts=n)
       st2 == IF fin /\ ~early THEN [c.st EXCEPT !.frozen = TRUE] ELSE c.st
   IN [st |-> st2, returned |-> returned2, unmatched |-> unmatched2, lines |-> lines2, k |-> S.k + 1,
@@ -96,7 +101,7 @@ MemoOf(st) == st.memo
 \* the fields of one event, in the order they are compared
 Diff(E, ev, before) ==
   IF ev.k # before.k THEN "k"
-  ELSE IF ev.exc # "" THEN "raised:" \o ev.exc
+  ELSE IF (ev.exc # "") # E.st.raised THEN "raised:" \o ev.exc
   ELSE IF ev.ret # (Len(E.returned) > Len(before.returned)) THEN "returned"
   ELSE IF ev.scan_count # E.st.scanCount THEN "scan_count"
   ELSE IF ev.match_count # E.st.matchCount THEN "match_count"
@@ -106,6 +111,9 @@ Diff(E, ev, before) ==
   ELSE IF E.kind = "match" /\ ev.votes # MemoOf(E.st) THEN "votes"
   ELSE IF ~VarsEq(ev.vars, NormVars(E.st.vars)) THEN "vars"
   ELSE IF ev.printed # E.st.printed THEN "printed"
+  ELSE IF ev.nerrors # Len(E.st.errors) THEN "errors"
+  ELSE IF ev.errlines # <<>> /\ ev.errlines # E.st.errors THEN "errors"       \* each record carries the number of its line
+  ELSE IF ev.errcalls # E.st.errPrinted THEN "errors_printed"
   ELSE "ok"
 
 \* what the specification expected for the field that differs (for the replay file)
